@@ -156,6 +156,37 @@ def run(rep):
         if len(x[2][1]) > 100 and x[2][2]:
             findings.append({'key': 'id-collision', 'python': pa[-300:],
                              'what': 'a rule with more than 100 variables and a sort variable: the 101st variable and the first sort parameter both become MetaVar(100)'})
+    # ---- 4b. the conversion scope is PER AXIOM (anchor: language_semantics.py, `scope = ConvertionScope()` in the rule branches): a module
+    #          of 55 two-variable rules followed by a rule with two variables and a sort variable.  Every rule's scope must list exactly
+    #          that rule's variables; otherwise variable numbers accumulate over the module and, past 100 names, a variable of the last
+    #          rule and its sort parameter become the same metavariable although the rule has two variables
+    cells = [d for d in w.syms if d[3] and d[2] >= 3]
+    n_scope_rules = 0
+    if cells:
+        s0 = ('s', w.sorts[0])
+        mk = lambda a, b, c_: ('app', cells[0][0], (), tuple([a, b, c_] + [w.c(w.consts[0])] * (cells[0][2] - 3)))   # noqa: E731
+        many = [('rewrites', s0, mk(w.c(w.consts[0]), ('evar', 2 * k), ('evar', 2 * k + 1)), mk(w.c(w.consts[-1]), ('evar', 2 * k + 1), ('evar', 2 * k))) for k in range(55)]
+        many.append(('rewrites', s0, mk(w.c(w.consts[0]), ('evar', 500), ('evar', 501)),
+                     mk(w.c(w.consts[-1]), ('and', ('sv', 0), ('evar', 500), ('top', ('sv', 0))), ('evar', 501))))
+        sents = ['(sort %d 0)' % s_ for s_ in w.sorts] + [try_kdef.sym_sx(w, d, rng) for d in w.syms] + [try_kdef.rule_sx(r) for r in many]
+        req = 'kdef (def (module 0 %s))' % ' '.join(sents)
+        ka = core.py_h([req])[0]
+        if ka.startswith('(ls'):
+            kx = sx.parse(ka)[0]
+            scopes = next((t for t in kx[1:] if isinstance(t, list) and t and t[0] == 'scopes'), ['scopes'])
+            for sc in scopes[1:]:
+                o, mvs, sps = int(sc[0]), [int(v) for v in sc[1]], [int(v) for v in sc[2]]
+                want = [2 * o, 2 * o + 1] if o < 55 else [500, 501]
+                n_scope_rules += 1
+                if sorted(mvs) != want:
+                    findings.append({'key': 'scope-not-per-axiom', 'request': req[:3000], 'ordinal': o, 'scope_variables': str(mvs)[:400], 'rule_variables': str(want),
+                                     'what': f'the conversion scope of rule {o} lists {len(mvs)} variables, the rule has {len(want)}: variable numbers are not per axiom'
+                                             + ('; the rule has a sort variable and more than 100 variables are numbered before its own: a variable and the sort parameter share MetaVar(100)'
+                                                if sps and len(mvs) > 100 else '')})
+                    break
+        else:
+            findings.append({'key': 'many-rules-refused', 'request': req[:3000], 'python': ka[:300], 'what': 'a definition of 56 small rewrite rules is refused: ' + ka[:100]})
+    rep.coverage.update({'per_axiom_scopes_checked': n_scope_rules})
     # ---- 5. the construction of the semantics and the hint stream: specification (Pi2/KDefSpec.lean) vs the check's own construction,
     #         generated text (Pi2/Gen/PyKDef.lean) vs the real code (skipped when the second driver did not build)
     kf, kcount = try_kdef.compare(worlds[: (8 if quick else 60)], rng)
@@ -185,7 +216,7 @@ def run(rep):
         if fd['key'] in seen:
             continue
         seen.add(fd['key'])
-        rep.violation(fd['what'], fd, True, key='py-kore:' + fd['key'])
+        rep.violation(fd['what'], fd, not core.is_correspondence(fd), key='py-kore:' + fd['key'])
     if not ok and not findings:
         rep.violation('proof obligation used by C20 no longer checks: ' + json.dumps(detail)[:600], {'broken': detail}, False)
     return rep
